@@ -854,8 +854,11 @@ def r43(ctx, rep):
                                  % (ev.info['op'], fmt_value(l), fmt_value(r)), ev.node)
             elif ev.kind == 'sortcall':
                 how = ev.info['how']
-                if how == 'heapq.merge' or fn.name in MERGE_HELPERS:
-                    continue       # element provenance decided at the call sites of the merge helpers
+                top = fn
+                while top.parent is not None:
+                    top = top.parent
+                if how == 'heapq.merge' or fn.name in MERGE_HELPERS or top.name in MERGE_HELPERS:
+                    continue       # element provenance decided at the call sites of the merge helpers (closures included)
                 if real:
                     n_sites += 1
                 k = ev.info.get('key')
